@@ -66,12 +66,13 @@ def build(thorough):
     add('lrt_two', '', {})
     add('strictness_edges', '', {})
     add('strictness_float', '', {})
+    add('strictness_class', '', {})
     slevel = 2 if thorough else 1
     nchunks = 24 if thorough else 10
     for i in range(nchunks):
         add('strictness', f'connectives<={slevel},chunk={i}/{nchunks}', dict(VH_SLEVEL=slevel, VH_CHUNK=f'{i}/{nchunks}'))
     tw = dict(VH_NC=2, VH_SLEVEL=1)
-    for f in ('rank', 'rank_refusals', 'lrt_two', 'strictness', 'strictness_edges', 'strictness_float'):
+    for f in ('rank', 'rank_refusals', 'lrt_two', 'strictness', 'strictness_edges', 'strictness_float', 'strictness_class'):
         obs.append(Ob(f'{f}__twin', H, f + '__twin', 120, kind='twin', env=tw))
     obs.append(Ob('rank_lrt__twin', H, 'rank_lrt__twin', 120, kind='twin', env=dict(VH_NC=2, VH_RT='lrt')))
     # most expensive first: many candidates, many eligible models
@@ -177,8 +178,9 @@ def main():
         criteria_corpus=info.get('corpus'),
         outside='floating point rounding and float-valued OFVs in rank_models (ints only: CrossHair does not confirm '
                 'the float version); pandas itself (DataFrame construction, sort_values, idxmin: contract stub); '
-                'strictness atoms that need pandas/numpy (condition_number, rse_theta/omega/sigma, '
-                'final_zero_gradient_*, estimate_near_boundary*); summarize_tool/create_results around rank_models; '
+                'strictness atoms that need numpy (condition_number, estimate_near_boundary*); the per-class atoms '
+                'rse_theta/omega/sigma and final_zero_gradient_theta/omega/sigma run over a contract model of the '
+                'pandas Series operations they use (strictness_class); summarize_tool/create_results around rank_models; '
                 'calculate_bic_penalty (mBIC search-space terms); lrt.best_of_many (numpy nanargmin); more than '
                 f'{max(p[0] for p in plan)} candidates; bootstrap / cdd / simeval / shrinkage / delta-method '
                 'statistics (numpy/pandas pipelines, not reachable by the solver) — this is why the claim is partial')
@@ -193,6 +195,9 @@ def main():
         'scipy.stats in pharmpy.modeling.lrt -> chi2.isf(q, df) = Q[q] + 2*df over integers (Q = {0.05:4, 0.01:7, '
         '0.001:11, 0.1:3, 0.2:2}); float() in pharmpy.modeling.lrt -> identity',
         'models = objects with name and a sized `parameters`; results = objects with the attributes read',
+        'strictness_class: relative_standard_errors / gradients -> FSeries, a contract model of pandas.Series '
+        '(index.isin, boolean-mask selection, reindex with NaN for missing labels, == scalar, isnull, any, '
+        'iteration) holding entries for the estimated parameters only; get_thetas/get_omegas/get_sigmas -> name lists',
         'cut-off boundary: a candidate whose delta EQUALS the cut-off is not ranked (code: `delta <= cutoff` is '
         'excluded; docs/modelsearch.rst says "not rank candidates with dOFV < cutoff"); LRT: dOFV >= cutoff passes',
         'base model failing strictness together with a cut-off: whether the cut-off applies is left open (no delta '
